@@ -300,6 +300,12 @@ func (dcc *dataConditionsContainer) finalize(r *Reader, queryPartIndex int, prev
 					return nil, err
 				}
 			}
+			if assertion, err := regexanalysis.HasEmptyWidthAssertion(e.Regex); err != nil {
+				return nil, err
+			} else if assertion {
+				// the prefix/suffix shortcuts change the context the assertions look at
+				r.root.prefix, r.root.suffix = nil, nil
+			}
 			continue
 		}
 
@@ -403,6 +409,11 @@ func (dcc *dataConditionsContainer) finalize(r *Reader, queryPartIndex int, prev
 					if root.suffix, err = regexanalysis.ConstantSuffix(regex); err != nil {
 						return nil, err
 					}
+				}
+				if assertion, err := regexanalysis.HasEmptyWidthAssertion(regex); err != nil {
+					return nil, err
+				} else if assertion {
+					root.prefix, root.suffix = nil, nil
 				}
 				root.isPrecondition = isPrecondition
 
@@ -725,6 +736,11 @@ func (ps *progressGroup) prepare(r *regex, pIdx int, e *query.DataConditionEleme
 		if p.suffix, err = regexanalysis.ConstantSuffix(expr); err != nil {
 			return nil, err
 		}
+	}
+	if assertion, err := regexanalysis.HasEmptyWidthAssertion(expr); err != nil {
+		return nil, err
+	} else if assertion {
+		p.prefix, p.suffix = nil, nil
 	}
 	return p, nil
 }
